@@ -11,7 +11,8 @@ ExactLists ==
   { <<TRUE, <<L(<<a>>)>>>>, <<TRUE, <<L(<<a,b>>)>>>>, <<TRUE, <<L(<<b,a,b>>)>>>>,
     <<TRUE, <<L(<<a,b>>), L(<<a>>)>>>>, <<TRUE, <<L(<<a>>), L(<<a,b>>)>>>>,
     <<TRUE, <<L(<<b>>), EOFM, L(<<a,b>>)>>>>, <<TRUE, <<TMOM, L(<<b,b>>), EOFM>>>>,
-    <<TRUE, <<L(<<b,a>>), L(<<a,b>>)>>>>, <<TRUE, <<EOFM>>>>, <<TRUE, <<L(<<a,a>>), L(<<a,a>>)>>>> }
+    <<TRUE, <<L(<<b,a>>), L(<<a,b>>)>>>>, <<TRUE, <<EOFM>>>>, <<TRUE, <<L(<<a,a>>), L(<<a,a>>)>>>>,
+    <<TRUE, <<L(<<b>>), L(<<a,a,b>>)>>>> }
 
 ReLists ==
   { <<FALSE, <<L(<<a>>)>>>>, <<FALSE, <<L(<<a,b>>), L(<<b>>)>>>>,
